@@ -61,6 +61,8 @@ def run(ctx):
     ctx.rule("R3", "energy-conserving velocity adjustment (expression algebra) and frustrated-hop purity")
     ctx.rule("R4", "per-trajectory isolation: indexing discipline, row-0 broadcasts, batch-global scalars")
     ctx.rule("R5", "scratch-buffer hygiene: reusable per-object buffers are re-initialised on every fetch (no state leaks between crossings/trajectories)")
+    ctx.rule("R6", "the adaptive sub-step controller sees the coupling at both ends of the nuclear step")
+    _r6_controller(ctx, nad)
     _r5(ctx, nad)
 
     # ------------------------------------------------------------------ R1
@@ -459,3 +461,54 @@ def _r5(ctx, nad):
               "_copy_cache_entry can keep an old buffer without copying the new data")
     if n < 3:
         raise AnalysisError("_get_tensor call sites not found")
+
+
+def _r6_controller(ctx, nad):
+    """The RK4 right-hand side interpolates the coupling between its value at the start and at the end of the nuclear step.  The number of
+    sub-steps (adaptive arm, substeps=None) must be computed from both end values: a controller that looks at one end only takes the base
+    number of sub-steps through a coupling spike that has decayed by the end of the step (norm loss of order 1e-2 instead of 1e-5)."""
+    f = nad.func("NonadiabaticDynamicsBase._propagate_electronic")
+    defs = {}
+    for st in ast.walk(f):
+        if isinstance(st, ast.Assign) and len(st.targets) == 1 and isinstance(st.targets[0], ast.Name):
+            defs.setdefault(st.targets[0].id, []).append(st)
+    # interpolation end points: X_new - X_old definitions whose result feeds the RK loop (difference of two cache reads)
+    ends = []
+    for nm, sts in defs.items():
+        for st in sts:
+            v = st.value
+            if isinstance(v, ast.BinOp) and isinstance(v.op, ast.Sub) and isinstance(v.left, ast.Name) and isinstance(v.right, ast.Name):
+                l, r = v.left.id, v.right.id
+                def from_cache(n_):
+                    return any(isinstance(s2.value, ast.Call) and callee_attr(s2.value) == "get" and "nac_dot" in norm(s2.value) for s2 in defs.get(n_, []))
+                if from_cache(l) and from_cache(r):
+                    ends.append((nm, l, r, st))
+    if not ends:
+        raise AnalysisError("_propagate_electronic: coupling end points (new - old) not found")
+    # adaptive arm: the `if substeps is None:` body
+    arms = [st for st in ast.walk(f) if isinstance(st, ast.If) and norm(st.test).replace(" ", "") == "substepsisNone"]
+    if not arms:
+        raise AnalysisError("_propagate_electronic: adaptive arm (substeps is None) not found")
+    arm = arms[0]
+    arm_defs = {}
+    for st in arm.body:
+        for x in ast.walk(st):
+            if isinstance(x, ast.Assign) and len(x.targets) == 1 and isinstance(x.targets[0], ast.Name):
+                arm_defs.setdefault(x.targets[0].id, []).append(x.value)
+    nsub_names = [n_ for n_ in arm_defs if n_.startswith("nsub")]
+    if not nsub_names:
+        raise AnalysisError("_propagate_electronic: adaptive sub-step count not found")
+
+    def closure(name, seen):
+        for v in arm_defs.get(name, []) or [s_.value for s_ in defs.get(name, [])]:
+            for x in ast.walk(v):
+                if isinstance(x, ast.Name) and x.id not in seen:
+                    seen.add(x.id)
+                    closure(x.id, seen)
+        return seen
+    roots_ = closure(nsub_names[0], {nsub_names[0]})
+    for nm, l, r, st in ends:
+        ctx.check(l in roots_ and r in roots_, "R6", nad, arm, "NonadiabaticDynamicsBase._propagate_electronic", f"{nsub_names[0]} depends on {l}, {r}",
+                  f"the adaptive sub-step count is computed from the coupling at both ends of the step ({l}, {r})",
+                  f"the adaptive sub-step count depends on {sorted(x for x in (l, r) if x in roots_) or 'neither end value'} only (of {l}, {r}): a coupling spike at the other end of the "
+                  f"nuclear step is integrated with the base number of RK4 sub-steps and the electronic norm is lost to first order in the spike")
